@@ -169,6 +169,18 @@ CHECKS['C14'] = dict(
          "shapes; the annotated-member backtracking is decided under C13 (R13.4).",
     tech="static analysis: table extraction from switch/constant definitions and exhaustive comparison with the documented precedence chain (K-TABLE), sibling agreement of token sets")
 
+CHECKS['C16'] = dict(
+    text="'Enforced everywhere' decided as a finite obligation matrix (12 rules × the analyser functions that can perform the offending act, "
+         "54 cells): each cell needs a Semantic throw controlled by the rule's predicate, in the visitor, its closures or the rule's own "
+         "helper; sibling visitors share cells. The type-compatibility relation is decided exactly: isAssignableType / conversionCost / "
+         "matchesPrimitive are evaluated abstractly from their syntax trees over 14 expected × 16 actual types (+64 primitive pairs) and "
+         "compared with the documented relation; and no compatibility site may skip the comparison on the Unknown primitive tag of an "
+         "inferred value type (class/array values carry it).",
+    note=TB + "K-ABS interprets the helper functions' sx trees with a 3-class hierarchy model (no repo code is run). 'And only there' (absence "
+         "of false rejections) outside the enumerated domain is not decided; predicates other than type compatibility are checked for "
+         "presence, not for correctness.",
+    tech="static analysis: obligation matrix over AST-visitor methods (guarded-throw presence by CFG reachability from predicate tests), finite abstract evaluation of the type-compatibility helpers (K-ABS)")
+
 NOT_YET = "check not yet built in this round (framework under construction; see DESIGN.md §4 for the planned static rules)"
 
 
